@@ -14,6 +14,7 @@ pub static LZ_DROP: [AtomicUsize; 2] = [AtomicUsize::new(0), AtomicUsize::new(0)
 pub static TRYWITH_OWN_IN_DROP_OK: AtomicUsize = AtomicUsize::new(0);
 pub static TRYWITH_OWN_IN_DROP_ERR: AtomicUsize = AtomicUsize::new(0);
 pub static TRYWITH_OTHER_IN_DROP: AtomicUsize = AtomicUsize::new(0);
+pub static SLOW_DROP: std::sync::atomic::AtomicBool = std::sync::atomic::AtomicBool::new(false);
 
 pub struct TlVal {
     k: usize,
@@ -27,6 +28,9 @@ impl TlVal {
 }
 impl Drop for TlVal {
     fn drop(&mut self) {
+        if SLOW_DROP.load(SeqCst) {
+            loom::thread::yield_now();
+        }
         TL_DROP[self.k].fetch_add(1, SeqCst);
         // the key under destruction must report AccessError, never panic and never hand out the value
         let own = if self.k == 0 { TL0.try_with(|_| ()) } else { TL1.try_with(|_| ()) };
@@ -108,10 +112,14 @@ pub struct StProg {
     pub threads: Vec<Vec<StOp>>,
     /// main joins the children before (true) or after (false) its own operations
     pub join_first: bool,
+    /// the thread-local destructors start with a scheduling point (`yield_now`), which opens the window between the end
+    /// of a thread's closure and the end of its destructors
+    #[serde(default)]
+    pub slow_drop: bool,
 }
 impl StProg {
     pub fn s(&self) -> String {
-        format!("{}{}", if self.join_first { "[join first] " } else { "" }, self.threads.iter().map(|t| t.iter().map(|o| format!("{:?}", o)).collect::<Vec<_>>().join("; ")).collect::<Vec<_>>().join("  ||  "))
+        format!("{}{}{}", if self.join_first { "[join first] " } else { "" }, if self.slow_drop { "[destructors yield] " } else { "" }, self.threads.iter().map(|t| t.iter().map(|o| format!("{:?}", o)).collect::<Vec<_>>().join("; ")).collect::<Vec<_>>().join("  ||  "))
     }
 }
 
@@ -223,6 +231,7 @@ pub fn run_loom(p: &StProg, iter_cap: usize) -> SRes {
         })));
     }
     let (e2, i2, ev2) = (errs.clone(), iters.clone(), events.clone());
+    SLOW_DROP.store(p.slow_drop, SeqCst);
     let res = std::panic::catch_unwind(std::panic::AssertUnwindSafe(|| {
         let mut b = loom::model::Builder::new();
         b.max_branches = 5000;
@@ -232,19 +241,38 @@ pub fn run_loom(p: &StProg, iter_cap: usize) -> SRes {
             }
             let x = Arc::new(loom::sync::atomic::AtomicUsize::new(0));
             let addrs: Arc<Mutex<Vec<(u8, usize)>>> = Arc::new(Mutex::new(Vec::new()));
+            let base = [TL_DROP[0].load(SeqCst), TL_DROP[1].load(SeqCst)];
+            // `join` returns after the thread has exited: the destructors of its thread-locals have run
+            let joined_check = |upto: usize| {
+                for k in 0..2 {
+                    let want = (1..=upto).filter(|t| touches_tl(&p2.threads[*t], k)).count();
+                    let have = TL_DROP[k].load(SeqCst) - base[k];
+                    if have < want {
+                        let mut e = e2.lock().unwrap();
+                        if e.len() < 20 {
+                            e.push(format!("join of thread {} returned before the destructor of its thread-local {} had run ({} of {} destructors of joined threads so far)", upto, k, have, want));
+                        }
+                    }
+                }
+            };
             let mut hs = Vec::new();
             for t in 1..p2.threads.len() {
                 let (p3, x3, a3, e3, ev3) = (p2.clone(), x.clone(), addrs.clone(), e2.clone(), ev2.clone());
                 hs.push(loom::thread::spawn(move || exec(&p3.threads[t], t, &x3, &a3, &e3, &ev3)));
             }
+            let mut joined = 0;
             if p2.join_first {
                 for h in hs.drain(..) {
                     h.join().unwrap();
+                    joined += 1;
+                    joined_check(joined);
                 }
             }
             exec(&p2.threads[0], 0, &x, &addrs, &e2, &ev2);
             for h in hs {
                 h.join().unwrap();
+                joined += 1;
+                joined_check(joined);
             }
             let a = addrs.lock().unwrap();
             for k in 0..3u8 {
@@ -258,6 +286,7 @@ pub fn run_loom(p: &StProg, iter_cap: usize) -> SRes {
         });
     }));
     loom::verif::set_iteration_hook(None);
+    SLOW_DROP.store(false, SeqCst);
     let panic = res.err().map(panic_msg);
     let mut errors = errs.lock().unwrap().clone();
     if TRYWITH_OWN_IN_DROP_OK.load(SeqCst) != own_ok0 {
@@ -286,18 +315,24 @@ fn core() -> &'static Vec<StProg> {
         for a in &lists {
             for b in &lists {
                 if !b.is_empty() {
-                    v.push(StProg { threads: vec![a.clone(), b.clone()], join_first: false });
+                    v.push(StProg { threads: vec![a.clone(), b.clone()], join_first: false, slow_drop: false });
                 }
             }
         }
         // single-threaded and 4-thread shapes
         for a in &lists {
-            v.push(StProg { threads: vec![a.clone()], join_first: false });
+            v.push(StProg { threads: vec![a.clone()], join_first: false, slow_drop: false });
         }
-        v.push(StProg { threads: vec![vec![StOp::Lz(0)], vec![StOp::Lz(0)], vec![StOp::Lz(0)], vec![StOp::Lz(0)]], join_first: false });
-        v.push(StProg { threads: vec![vec![StOp::LzSlow], vec![StOp::LzSlow], vec![StOp::LzSlow]], join_first: false });
-        v.push(StProg { threads: vec![vec![StOp::LzSlow, StOp::LzSlow], vec![StOp::LzSlow], vec![StOp::ALoad, StOp::LzSlow]], join_first: false });
-        v.push(StProg { threads: vec![vec![StOp::Tl(0)], vec![StOp::Tl(0)], vec![StOp::Tl(0)], vec![StOp::Tl(0)]], join_first: true });
+        v.push(StProg { threads: vec![vec![StOp::Lz(0)], vec![StOp::Lz(0)], vec![StOp::Lz(0)], vec![StOp::Lz(0)]], join_first: false, slow_drop: false });
+        v.push(StProg { threads: vec![vec![StOp::LzSlow], vec![StOp::LzSlow], vec![StOp::LzSlow]], join_first: false, slow_drop: false });
+        v.push(StProg { threads: vec![vec![StOp::LzSlow, StOp::LzSlow], vec![StOp::LzSlow], vec![StOp::ALoad, StOp::LzSlow]], join_first: false, slow_drop: false });
+        v.push(StProg { threads: vec![vec![StOp::Tl(0)], vec![StOp::Tl(0)], vec![StOp::Tl(0)], vec![StOp::Tl(0)]], join_first: true, slow_drop: false });
+        // destructors with a scheduling point: the joiner must still find them done
+        for join_first in [false, true] {
+            v.push(StProg { threads: vec![vec![], vec![StOp::Tl(0)]], join_first, slow_drop: true });
+            v.push(StProg { threads: vec![vec![StOp::ALoad], vec![StOp::Tl(0), StOp::Tl(1)]], join_first, slow_drop: true });
+            v.push(StProg { threads: vec![vec![StOp::Tl(0)], vec![StOp::TlNested], vec![StOp::Tl(1), StOp::AStore]], join_first, slow_drop: true });
+        }
         v
     })
 }
@@ -316,7 +351,7 @@ pub fn prog_at(_tier: u8, seed: u64, idx: usize) -> StProg {
     let al = alphabet();
     let k = if t >= 3 { 2 } else { 3 };
     let threads = (0..t).map(|_| (0..1 + rng.below(k)).map(|_| *rng.pick(&al)).collect()).collect();
-    StProg { threads, join_first: rng.chance(1, 4) }
+    StProg { threads, join_first: rng.chance(1, 4), slow_drop: rng.chance(1, 4) }
 }
 
 pub fn judge(p: &StProg, rec: &mut Rec, tier: u8) {
